@@ -66,7 +66,15 @@ func genOp(g G, u universe, m *mTracker, uniq *int, choose func(int) int) tOp {
 	case 5:
 		return tOp{"DelNick", []string{nick()}}
 	case 6:
-		return tOp{"NickInfo", []string{nick(), fresh("id"), fresh("host"), fresh("name")}}
+		// each attribute may also be given empty (a JOIN carries no real name):
+		// the tracker stores what it is given
+		val := func(p string) string {
+			if choose(4) == 0 {
+				return ""
+			}
+			return fresh(p)
+		}
+		return tOp{"NickInfo", []string{nick(), val("id"), val("host"), val("name")}}
 	case 7:
 		// any string over the signs, the six user-mode letters and a letter the
 		// tracker does not know (signs may switch anywhere, also right at the start)
@@ -82,6 +90,9 @@ func genOp(g G, u universe, m *mTracker, uniq *int, choose func(int) int) tOp {
 	case 11:
 		return tOp{"DelChannel", []string{ch()}}
 	case 12:
+		if choose(5) == 0 {
+			return tOp{"Topic", []string{ch(), ""}}
+		}
 		return tOp{"Topic", []string{ch(), fresh("topic")}}
 	case 13, 14:
 		return genModeOp(u, m, ch(), uniq, choose)
